@@ -2120,7 +2120,13 @@ func opcodeCheckMultiSig(op *ParsedOpcode, t *thread) error {
 		return errs.NewError(errs.ErrTooManyOperations, "exceeded max operation limit of %d", t.cfg.MaxOps())
 	}
 
-	pubKeys := make([][]byte, 0, numPubKeys)
+	// Reserve room for the keys that can be there: the count comes from the
+	// script and, after genesis, is only limited by the size of an int32.
+	keysCap := numPubKeys
+	if depth := int(t.dstack.Depth()); keysCap > depth {
+		keysCap = depth
+	}
+	pubKeys := make([][]byte, 0, keysCap)
 	for i := 0; i < numPubKeys; i++ {
 		pubKey, err := t.dstack.PopByteArray() //nolint:govet // ignore shadowed error
 		if err != nil {
